@@ -221,6 +221,10 @@ def check(rec, kind, idx, rng, tier):
         f = getattr(classify, fname)
         for trial in range(3):
             cls, a = _raster(rng)
+            if kind == 'quant' and trial == 1 and a.dtype.kind == 'f' and rng.random() < 0.7:
+                # distinct values that are close relative to their magnitude (large offset, or tiny magnitudes)
+                base_ = rng.integers(0, 60, a.shape) * 0.5
+                a = (500000.0 + base_) if rng.random() < 0.5 else (base_ * 1e-10); a = a.astype('float64'); cls = 'offset_or_tiny'
             if kind == 'eqint' and trial == 0 and k in (4, 5, 8, 10, 16, 20) and rng.random() < 0.7:
                 a = (rng.integers(0, 21, a.shape) * 0.05).astype(str(rng.choice(['float32', 'float64']))); cls = 'decimal_grid'
             af = a.astype('float64'); fin = np.isfinite(af)
@@ -322,6 +326,13 @@ def check(rec, kind, idx, rng, tier):
             elif vc == 2: a = (rng.random((H, W)) * 100).astype('float32').astype('float64')
             if vc in (0, 1) and rng.random() < 0.35:
                 a = a + float(rng.choice([8000.0, 500000.0]))          # offset large against the spread (still exact in float32)
+            if rng.random() < 0.2:
+                # flat surface with a single outlier (or a pit and a spike); or almost as many classes as cells
+                a = np.full((H, W), 10.0); a[0, 0] = float(rng.choice([-350.0, 400.0]))
+                if rng.random() < 0.5: a[-1, -1] = float(rng.choice([300.0, -200.0]))
+                a = a + rng.integers(0, 3, (H, W)); vc = 0
+            elif rng.random() < 0.15:
+                H, W = 2, 3; a = rng.permutation(np.arange(6) * 3.0 + 1).reshape(2, 3); vc = 0
             else: a = rng.uniform(0, 1000, (H, W)) + rng.uniform(0, 1e-7, (H, W))      # not float32-representable
             if rng.random() < 0.3:
                 a = gen.sprinkle(a, rng, 0.1, what=(np.nan, np.inf, -np.inf), where='random')
